@@ -225,6 +225,37 @@ def search_is_pure_or_memo_complete(ctx, F, ty, rule):
                            [b.debug_name(i) for i in missing]), span=c.span)
 
 
+def candidates_are_independent(ctx, F, ty, rule):
+    """Backtracking tries every thread's next operation at every position; whether one candidate is tried may
+    not depend on what happened to another candidate at the same position. So the loop over the threads carries
+    no user variable from one turn into the next (a flag like `progressed`, a spare clone of the reference
+    object, a counter): dataflow over the loop body, see common.loop_carried_user_locals."""
+    from common import loop_carried_user_locals
+    short = ty.split('::')[-1]
+    b = tester_fn(F, ty, 'serialize')
+    # the thread loop: the outermost loop of the un-normalised body (in normal form the `all(..)` of the done
+    # test is a loop of its own in front of it)
+    loop = [c for c in b.calls_to('Iterator::next') if b.in_cycle(c.bb)]
+    if not loop:
+        raise AnchorMissing('%s::serialize: thread loop' % short)
+    head = loop[0]
+    for c in loop:
+        if b.dominates(c.bb, head.bb):
+            head = c
+    carried = loop_carried_user_locals(b, head)
+    nb = F.norm(b)
+    if nb is not b:
+        for h in nb.calls_to('Iterator::next'):
+            if nb.in_cycle(h.bb) and h.span == head.span:
+                carried += loop_carried_user_locals(nb, h)
+    ctx.check(not carried, rule, 'candidates-independent', b,
+              good='the loop over the candidate threads carries no variable from one candidate to the next',
+              bad='%s::serialize: variable(s) %s carry a value from one candidate of the thread loop to the next: whether '
+                  'a candidate is tried (or what it starts from) depends on its siblings, so orders that need the '
+                  'skipped candidate first are never explored / a rejected candidate leaks state' %
+                  (short, sorted(set(n for (l, n, i) in carried))))
+
+
 def search_skeleton(ctx, F, ty, rule, lin):
     short = ty.split('::')[-1]
     b = tester_fn(F, ty, 'serialize')
